@@ -9,11 +9,23 @@ THEOREMS = [
      "text": "processing a transition leaves the staged entry of every task other than its target exactly as it was"},
     {"name": "C06_snapshots_never_change", "strength": "F", "text": "a published snapshot is never modified by a later call"},
     {"name": "C06_delta_is_the_publish", "strength": "F", "text": "a published delta contains exactly the published names"},
-    {"name": "(tested, not proved) every token visible to a task was published by a causal ancestor (taint oracle); "
-             "supersession order at joins is refuted by known finding D11", "strength": "T", "text": "monitor c06"},
+    {"name": "C06b_reachable_provenance / C06b_history_provenance / C06b_api_provenance", "strength": "F",
+     "text": "invariant of every history of API calls from a fresh conductor (every evaluator, every operation incl. late, "
+             "duplicate, malformed events, reruns, persist and calls that raise; no hypothesis): every context index in the "
+             "list of a staged entry or record of task x is 0, or was created by an edge into x of an earlier record, or is "
+             "inherited from an earlier record of x or of a task with an edge into x (ghost list: who created which snapshot)"},
+    {"name": "C06b_delta_invisible_off_path / C06b_delta_reaches_only_downstream / C06b_every_delta_has_a_creator", "strength": "F",
+     "text": "a snapshot published on an edge e occurs only in the lists of tasks reachable from e's target: a variable "
+             "published only on a transition that does not lead to the task is never visible to it through that publish"},
+    {"name": "C06b_in_list_recurrence / C06b_terminal_context_reads", "strength": "F",
+     "text": "the exact recurrence of the lists (new entry: the completed record's list + the new snapshot; later arrival: "
+             "appended, minus its first 0, no deduplication) and of the output fold (r_in of terminal records in sequence order)"},
+    {"name": "supersession order at joins: Example pv_join_D11", "strength": "R",
+     "text": "known finding D11 is a consequence of the recurrence: the later arrival's inherited older value overrides"},
+    {"name": "(tested) taint monitor c06", "strength": "T", "text": "unique token per publish; publisher must be a causal ancestor"},
 ]
 TRUSTED_BASE = common.TRUSTED_BASE_COMMON
-ASSUMPTIONS = ["the global no-leak invariant over prev-chains is not proved; known finding D11 (stale inherited value wins at a join)"]
+ASSUMPTIONS = ["known finding D11 (stale inherited value wins at a join)"]
 FAM = progs.family(p_publish=0.7, p_join=0.6, p_loop=0.2, n_tasks=(3, 8), p_fail=0.1, w_ctrl=0.2, w_rerun=0.2,
                    p_dictval=0.4, p_inline=0.3, steps=(15, 70))
 
